@@ -75,6 +75,9 @@ pub fn scenario(ctx: &mut Ctx) -> ScResult {
     if ctx.cfg.profile == "lifetime" {
         return lifetime(ctx);
     }
+    if ctx.cfg.profile == "backlog" {
+        return backlog(ctx);
+    }
     // 1..3 connections one after the other on this node: each gets a fresh TcpBuffer, the previous
     // one is dropped (after a connection cut: dropped while it still holds unread bytes); nothing of
     // an earlier connection may surface in a later one
@@ -117,19 +120,24 @@ fn stun_like_payload(ctx: &mut Ctx) -> Vec<u8> {
 }
 
 fn one_connection(ctx: &mut Ctx) -> ScResult {
-    // frames
-    let nf = ctx.ch.range(1, 6) as usize;
+    // frames; one connection in 24 carries a train of 40..1500 tiny frames (a reader that falls
+    // behind a chatty peer: hundreds of complete frames waiting at once)
+    let train = ctx.ch.rare(1, 24);
+    let nf = if train { ctx.ch.range(40, 1500) as usize } else { ctx.ch.range(1, 6) as usize };
+    if train {
+        ctx.st.inc("op.train_of_tiny_frames");
+    }
     let mut frames: Vec<Vec<u8>> = vec![];
     let mut stream: Vec<u8> = vec![];
     for _ in 0..nf {
-        let mut l = frame_len(ctx);
+        let mut l = if train { ctx.ch.weighted(&[6, 2, 1, 1]) as usize } else { frame_len(ctx) };
         // payloads that themselves look like length prefixes some of the time
         let mut p = ctx.ch.bytes(l);
         if l >= 2 && ctx.ch.rare(1, 3) {
             p[0] = 0;
             p[1] = ctx.ch.below(4) as u8;
         }
-        if ctx.ch.rare(1, 3) {
+        if !train && ctx.ch.rare(1, 3) {
             p = stun_like_payload(ctx);
             l = p.len();
             ctx.st.inc("op.frame_with_stun_like_payload");
@@ -255,6 +263,91 @@ fn one_connection(ctx: &mut Ctx) -> ScResult {
         ctx.st.inc("probe.buffer_dropped_with_unread_bytes");
     }
     ctx.st.nontrivial = ctx.st.nontrivial || segs >= 2 || frames.len() >= 2;
+    Ok(())
+}
+
+/// Profile `backlog`: the reader falls far behind.  Thousands of tiny complete frames (mostly empty,
+/// some of 1..3 bytes, now and then a longer one) wait in one `TcpBuffer` at the same time — a few
+/// hundred, about 2^16 (the count of waiting frames crosses 65 535 / 65 536 / 65 537), about 2^17, or
+/// anything in between — pushed all at once, in chunks of up to 4 KB, in two halves or two bytes at a
+/// time, with the occasional pull while the backlog builds up; then everything is drained.  Every
+/// pull is compared with the frame model.
+fn backlog(ctx: &mut Ctx) -> ScResult {
+    let n = match ctx.ch.weighted(&[4, 3, 1, 2]) {
+        0 => ctx.ch.range(300, 3000),
+        1 => ctx.ch.range(65_530, 65_541),
+        2 => ctx.ch.range(131_070, 131_075),
+        _ => ctx.ch.range(20_000, 70_000),
+    } as usize;
+    let mut stream: Vec<u8> = Vec::with_capacity(n * 3);
+    let mut ends: Vec<usize> = Vec::with_capacity(n);
+    let longer_every = ctx.ch.range(500, 5000) as usize;
+    for i in 0..n {
+        let l = if i % longer_every == longer_every - 1 { ctx.ch.range(4, 300) as usize } else { ctx.ch.weighted(&[12, 2, 1, 1]) as usize };
+        stream.extend_from_slice(&(l as u16).to_be_bytes());
+        for k in 0..l {
+            stream.push((i as u8).wrapping_mul(13).wrapping_add(k as u8) | 1);
+        }
+        ends.push(stream.len());
+    }
+    let mut tb = g("TcpBuffer::new", TcpBuffer::new)?;
+    let mut fm = FrameModel { buf: VecDeque::new() };
+    let mut pulls = 0usize;
+    let mut delivered = 0usize;
+    let mode = ctx.ch.below(4);
+    let pull_while_filling = ctx.ch.coin();
+    let mut pos = 0usize;
+    let mut received = 0usize; // frames fully pushed
+    let mut max_waiting = 0usize;
+    let mut segs = 0u64;
+    while pos < stream.len() {
+        let rem = stream.len() - pos;
+        let k = match mode {
+            0 => rem,
+            1 => ctx.ch.range(1, 4096) as usize,
+            2 => (rem / 2).max(1),
+            _ => {
+                if rem > 4096 {
+                    rem - 4096
+                } else {
+                    2
+                }
+            }
+        }
+        .min(rem);
+        let chunk = &stream[pos..pos + k];
+        g("TcpBuffer::push_data", || tb.push_data(chunk))?;
+        fm.buf.extend(chunk.iter().copied());
+        pos += k;
+        segs += 1;
+        while received < n && ends[received] <= pos {
+            received += 1;
+        }
+        max_waiting = max_waiting.max(received - delivered);
+        if pull_while_filling && ctx.ch.rare(1, 3) {
+            for _ in 0..ctx.ch.range(1, 3) {
+                if check_pull(ctx, &mut tb, &mut fm, &mut pulls, "pull while the backlog builds up")? {
+                    delivered += 1;
+                }
+            }
+        }
+    }
+    while check_pull(ctx, &mut tb, &mut fm, &mut pulls, "draining the backlog")? {
+        delivered += 1;
+    }
+    if delivered != n {
+        let v = Violation::new("C14", "all_complete_frames_surface", "count", format!("{n} frames were fully received, {delivered} were pulled"));
+        ev!(ctx, "  !! {}", v.message);
+        return Err(v);
+    }
+    if max_waiting >= 65_536 {
+        ctx.st.inc("probe.backlog_of_65536_or_more_complete_frames");
+    }
+    ctx.st.inc("op.backlog_run");
+    ctx.st.add("fault.segmentation", segs);
+    ctx.st.add("out.frames_delivered", delivered as u64);
+    ev!(ctx, "  backlog: {n} frames, {segs} segments, at most {max_waiting} complete frames waiting at once, {pulls} pulls");
+    ctx.st.nontrivial = true;
     Ok(())
 }
 
